@@ -24,7 +24,7 @@ package ice
 // (cancelled context, closed loop) the caller still owns it.
 //@ func (*Agent).addCandidate
 //@   props C09 C18 C10 C06
-//@   site call Run#1 assert C18 C10 C06 the-submission-is-cancelled-with-its-gathering-cycle: arg0 == a.loop && arg1 == ctx
+//@   site call Run#1 assert C18 C10 C06 C09 the-submission-is-cancelled-with-its-gathering-cycle: arg0 == a.loop && arg1 == ctx
 //@   requires C09 cand != nil && candidateConn != nil && !candidateConn.gHeld
 //@   requires C09 offered-candidate-was-never-started: baseOf(cand).closeCh == nil
 //@   modifies candidateConn.gClosed, candidateConn.gHeld, fam:*
